@@ -247,4 +247,4 @@ void vf_case(Ctx& ctx, uint64_t i) {
   judge(ctx, c, false);
 }
 void vf_replay(Ctx& ctx, const Case& c) { judge(ctx, c, true); }
-void vf_end(Ctx& ctx) { ctx.count("gp_candidates_rejected", g_gc.rejected); ctx.count("gp_flat_dense_scanline_scenes", g_gc.flat); ctx.count("gp_scenes_with_crossing_a_hair_past_a_scanline", g_gc.tie); }
+void vf_end(Ctx& ctx) { ctx.count("gp_candidates_rejected", g_gc.rejected); ctx.count("gp_flat_dense_scanline_scenes", g_gc.flat); ctx.count("gp_scenes_with_crossing_a_hair_past_a_scanline", g_gc.tie); ctx.count("gp_scenes_with_a_corner_whose_cross_product_is_an_exact_power_of_two", g_gc.wrap); }
